@@ -128,6 +128,18 @@ Definition parse_elem (v : str) : option (str * N) :=
 (* ---------------------------------------------------------------------------------------------- *)
 (* symbols, descriptors, analysis                                                                 *)
 Record symbol := mkSym { s_file : str; s_line : N; s_label : str; s_value : str }.
+Definition sym_eqb (a b : symbol) : bool :=
+  str_eqb (s_file a) (s_file b) && (s_line a =? s_line b) && str_eqb (s_label a) (s_label b)
+  && str_eqb (s_value a) (s_value b).
+(* keep the first occurrence of every symbol (file, line, label, value): what a symbol list looks like
+   when every repeated inclusion of a file is dropped; the analysis cannot tell the difference
+   (theorem C20_repeated_symbols_ignored) *)
+Fixpoint dedup_from (seen l : list symbol) : list symbol :=
+  match l with
+  | [] => []
+  | s :: r => if existsb (sym_eqb s) seen then dedup_from seen r else s :: dedup_from (s :: seen) r
+  end.
+Definition dedup_syms (l : list symbol) : list symbol := dedup_from [] l.
 
 Inductive desc := Par (i : N) | FPar (i : N) | Elem (d i : N).
 Definition desc_eqb (a b : desc) : bool :=
@@ -374,6 +386,39 @@ Fixpoint parse_prog (fuel : nat) (fs : list (path * list str)) (incdir : path) (
       end
   end.
 
+(* The include traversal with "parse every file once": an #Include whose resolved (normalised) path is
+   already queued or parsed is skipped.  Not what /repo does today (it re-parses, and loops forever on
+   circular includes), but an equally good scanner for C20: its symbol list is the pinned one with later
+   copies of a file's block removed, which the analysis ignores.  On a circular include graph this is
+   the "acyclic unfolding"; the pinned traversal answers POutOfFuel there. *)
+Fixpoint add_fresh (seen : list path) (ps : list path) : list path * list path :=
+  match ps with
+  | [] => (seen, [])
+  | p :: r =>
+      if existsb (path_eqb (normalize p)) seen then add_fresh seen r
+      else let '(seen', fresh) := add_fresh (normalize p :: seen) r in (seen', p :: fresh)
+  end.
+Fixpoint parse_prog_once (fuel : nat) (fs : list (path * list str)) (incdir : path)
+         (seen : list path) (queue : list path) : pres :=
+  match fuel with
+  | O => POutOfFuel
+  | S f =>
+      match queue with
+      | [] => POk []
+      | src :: rest =>
+          match dget path_eqb (normalize src) fs with
+          | None => PNoFile src
+          | Some lines =>
+              let '(syms, incs) := scan_lines (join_with 47 (normalize src)) 1 lines in
+              let '(seen', fresh) := add_fresh seen (filter_some (map (fun i => resolve_include i src incdir) incs)) in
+              match parse_prog_once f fs incdir seen' (rest ++ fresh) with
+              | POk ss => POk (syms ++ ss)
+              | e => e
+              end
+          end
+      end
+  end.
+
 (* ---------------------------------------------------------------------------------------------- *)
 (* _find_sequential_ranges                                                                        *)
 Fixpoint insert (x : N) (l : list N) : list N :=
@@ -439,6 +484,22 @@ Definition apply_call (c : call) (rf : regfile) : regfile :=
   end.
 Definition do_call (c : call) (dv : dev) : dev := mkDev (apply_call c (regs dv)) (log dv ++ [c]).
 Definition do_calls (cs : list call) (dv : dev) : dev := fold_left (fun d c => do_call c d) cs dv.
+
+(* what a call on the ADwin interface writes / reads, register by register *)
+Definition writes_of_call (c : call) : list (reg * value) :=
+  match c with
+  | CSetPar i v => [(RPar i, v)]
+  | CSetFPar i v => [(RFPar i, v)]
+  | CSetData d s vs => combine (map (RData d) (nrange s (length vs))) vs
+  | _ => []
+  end.
+Definition reads_of_call (c : call) : list reg :=
+  match c with
+  | CGetPar i => [RPar i]
+  | CGetFPar i => [RFPar i]
+  | CGetData d s n => map (RData d) (nrange s (N.to_nat n))
+  | _ => []
+  end.
 
 Inductive ores (A : Type) := ROk (a : A) | RValueError | RTypeError.
 Arguments ROk {A}. Arguments RValueError {A}. Arguments RTypeError {A}.
